@@ -230,11 +230,20 @@ def native_binstart(ex, net, nl, nr, lc, rc):
     """the real Start<BinaryStartReceiver> fed with the batches of the model run, in the same order"""
     import os
     from mirsym.executor import RustPanic
-    bl = [ev for ev in net.log if ev[0] == 'batch']
-    args = [nl, nr, int(lc), int(rc), len(bl)]
-    for _, bid, s, batch in bl:
-        args += [bid, s, len(batch)] + hlib.encode_script(ex, batch, False)
+    args = [nl, nr, int(lc), int(rc), len(net.log)]
+    adaptive = False
+    for ev in net.log:
+        if ev[0] == 'timeout':
+            adaptive = True
+            args += [0, 300, 0]            # the producers pause for 3 x max_delay: the real receive times out
+        else:
+            _, bid, s, batch = ev
+            args += [bid, s, len(batch)] + hlib.encode_script(ex, batch, False)
     os.environ['VERIF_REPLAY_ZIP_GAP_MS'] = '40'
+    if adaptive:
+        os.environ['VERIF_REPLAY_BINSTART_ADAPTIVE'] = '1'
+    else:
+        os.environ.pop('VERIF_REPLAY_BINSTART_ADAPTIVE', None)
     runner, prof = ex.env['native']
     ex.env['native_used'] = True
     txt = runner('binstart', args, timeout=120)[prof]
@@ -245,6 +254,8 @@ def native_binstart(ex, net, nl, nr, lc, rc):
     for tok in txt.split():
         if tok in ('TIMEOUT', 'OVERRUN'):
             raise Violation('the real binary Start does not terminate on this input (%s)' % tok, hlib._wit(ex))
+        if tok == 'B':
+            continue
         if tok in ('LE', 'RE'):
             out.append(hlib.se('Item', Enum('BinaryElement', 'LeftEnd' if tok == 'LE' else 'RightEnd', BE['LeftEnd' if tok == 'LE' else 'RightEnd'], [])))
         elif tok[0] in 'LR' and tok[1] == '(':
@@ -256,7 +267,7 @@ def native_binstart(ex, net, nl, nr, lc, rc):
     return out
 
 
-def cache_harness(w, nl, nr, rounds, max_len, cached='right', cut='each'):
+def cache_harness(w, nl, nr, rounds, max_len, cached='right', cut='each', timeouts=0):
     """binary Start inside a loop body: the `cached` side comes from outside the loop (delivered once), the other
     side is the loop's stream (`rounds` iterations)"""
     multiple = w.impls[(None, 'Start')]['multiple'][0]
@@ -272,9 +283,10 @@ def cache_harness(w, nl, nr, rounds, max_len, cached='right', cut='each'):
         sl, sr = (s_loop, s_out) if cached == 'right' else (s_out, s_loop)
         st = ex.call_function(multiple, [Int('u64', 1), Int('u64', 2), cached == 'left', cached == 'right', none()])
         holder = [st]
-        net = binary_setup(ex, w, holder, setup, nl, nr, sl, sr, cut)
+        net = binary_setup(ex, w, holder, setup, nl, nr, sl, sr, cut, max_timeouts=timeouts, adaptive=timeouts > 0)
         total = sum(len(s) for s in sl + sr)
-        out = hlib.drive(ex, nxt, holder, (rounds + 1) * total + 8)
+        out = hlib.drive(ex, nxt, holder, (rounds + 1) * total + 8 + 2 * timeouts)
+        out = [e for e in out if e.variant != 'FlushBatch']
         if ex.env.get('native'):
             out = native_binstart(ex, net, nl, nr, cached == 'left', cached == 'right')
         sx = lambda: {'cached': cached, 'left': [[repr(e) for e in s] for s in sl],
@@ -316,6 +328,7 @@ def cache_tasks(tier, role):
     cfgs = [dict(nl=1, nr=1, rounds=3, max_len=[1, 1, 1], cached='right'),
             dict(nl=1, nr=2, rounds=2, max_len=[1, 1], cached='right'),
             dict(nl=2, nr=1, rounds=2, max_len=[1, 0], cached='right'),
+            dict(nl=1, nr=1, rounds=2, max_len=[1, 1], cached='right', timeouts=1),
             dict(nl=1, nr=1, rounds=2, max_len=[2, 1], cached='left')]
     if tier != 'quick':
         cfgs += [dict(nl=2, nr=1, rounds=2, max_len=[1, 1], cached='right'),
@@ -323,7 +336,7 @@ def cache_tasks(tier, role):
                  dict(nl=1, nr=1, rounds=3, max_len=[2, 2, 1], cached='left')]
     ts = []
     for c in cfgs:
-        nm = 'cache_%s_%dx%d_r%d' % (c['cached'], c['nl'], c['nr'], c['rounds'])
+        nm = 'cache_%s_%dx%d_r%d%s' % (c['cached'], c['nl'], c['nr'], c['rounds'], '_timeouts' if c.get('timeouts') else '')
         ts.append(Task(nm, 'cache_harness', c,
                        bounds='Start<BinaryStartReceiver> with the %s side cached: %d left / %d right producers, %d rounds '
                               'of the loop side x <=%s items, outside side delivered once (<=%s items per producer), one '
